@@ -311,6 +311,7 @@ func init() {
 			checkReducedOutputs(red, cfg)
 			if id == c.Configs()[0] {
 				run.Sample(checkAliasing(al, p, []string{"curve/scalar"}))
+				checkAliasSlice(p, run.Rule("ALIAS-slice", "a function with an output *T and a slice of T / *T finishes reading the slice elements before it first writes the output (the output may be one of the elements)", 15), false)
 			}
 			for _, s := range c05Specs() {
 				r := edt.Check(dt, cfg, s)
